@@ -52,6 +52,10 @@ def _valid(kind):
         return c11.lis_source({'n': 6})[0]
     if kind == 'B':
         return c11.bit_source({'n': 5})[0]
+    if kind == 'LX':
+        # a real file from the repository's example data: it has the physical record padding that generated files lack
+        with open(os.path.join(seams.REPO, 'example_data', 'LIS', 'data', 'DILLSON-1_WELL_LOGS_FILE-013.LIS'), 'rb') as f:
+            return f.read()
     if kind == 'V1b':
         return c11.rp66_source({'n': 3})[0]
     if kind == 'Lb':
@@ -76,6 +80,10 @@ def _damage(data, how):
         by[(4 * n) // 5] ^= 0xFF
     elif how == 'trunc':
         by = by[:(2 * n) // 3]
+    elif how.startswith('bytes'):
+        by = by[:int(how[5:])]
+    elif how.startswith('cut'):
+        by = by[:(int(how[3:]) * n) // 48]
     return bytes(by)
 
 
@@ -105,8 +113,8 @@ def file_bytes(code):
     return _CACHE[code]
 
 
-EXT = {'V1': '.dlis', 'V2': '.dlis', 'V1b': '.dlis', 'L': '.lis', 'Lb': '.lis', 'B': '.bit', 'Bb': '.bit', 'LAS': '.las', 'DAT': '.dat', 'EMPTY': '.dlis'}
-NATIVE = {'rp66': ('V1', 'V2', 'V1b'), 'lis': ('L', 'Lb'), 'bit': ('B', 'Bb')}
+EXT = {'V1': '.dlis', 'V2': '.dlis', 'V1b': '.dlis', 'L': '.lis', 'Lb': '.lis', 'LX': '.lis', 'B': '.bit', 'Bb': '.bit', 'LAS': '.las', 'DAT': '.dat', 'EMPTY': '.dlis'}
+NATIVE = {'rp66': ('V1', 'V2', 'V1b'), 'lis': ('L', 'Lb', 'LX'), 'bit': ('B', 'Bb')}
 
 
 def is_good(code, tool):
@@ -151,13 +159,19 @@ def _opts(channels):
 def child_sequential(tool, dir_in, dir_out, channels):
     from TotalDepth.LAS.core import WriteLAS
     red, sl, chs, w, ff = _opts(channels)
-    res = WriteLAS.convert_dir_or_file_to_las(dir_in, dir_out, True, red, sl, chs, w, ff, converter(tool))
+    try:
+        res = WriteLAS.convert_dir_or_file_to_las(dir_in, dir_out, True, red, sl, chs, w, ff, converter(tool))
+    except Exception as err:  # noqa  - the batch was aborted
+        return {'__aborted__': '%s: %s' % (type(err).__name__, str(err)[:200])}, snapshot(dir_out) if os.path.isdir(dir_out) else {}
     return norm_results(res, dir_in), snapshot(dir_out) if os.path.isdir(dir_out) else {}
 
 
 def child_alone(tool, path_in, path_out, channels, dir_in, dir_out):
     red, sl, chs, w, ff = _opts(channels)
-    r = converter(tool)(path_in, red, path_out, sl, chs, w, ff)
+    try:
+        r = converter(tool)(path_in, red, path_out, sl, chs, w, ff)
+    except Exception as err:  # noqa  - a single file conversion must report, not raise
+        return {os.path.relpath(path_in, dir_in): ('__raised__', type(err).__name__)}, snapshot(dir_out) if os.path.isdir(dir_out) else {}
     return norm_results({path_in: r}, dir_in), snapshot(dir_out) if os.path.isdir(dir_out) else {}
 
 
@@ -173,7 +187,10 @@ def child_schedule(tool, dir_in, dir_out, channels, assignment, jobs):
     env.VirtualPool.assignment = assignment
     WriteLAS.multiprocessing = FakeMP
     red, sl, chs, w, ff = _opts(channels)
-    res = WriteLAS.convert_dir_or_file_to_las_multiprocessing(dir_in, dir_out, True, red, sl, chs, w, ff, jobs, converter(tool))
+    try:
+        res = WriteLAS.convert_dir_or_file_to_las_multiprocessing(dir_in, dir_out, True, red, sl, chs, w, ff, jobs, converter(tool))
+    except Exception as err:  # noqa  - the batch was aborted
+        return {'__aborted__': '%s: %s' % (type(err).__name__, str(err)[:200])}, snapshot(dir_out) if os.path.isdir(dir_out) else {}, env.VirtualPool.log
     return norm_results(res, dir_in), snapshot(dir_out) if os.path.isdir(dir_out) else {}, env.VirtualPool.log
 
 
@@ -210,7 +227,9 @@ def explore_directory(case, res, workdir, tier):
     # (i) sequential
     seq_res, seq_out = env.run_forked(child_sequential, tool, dir_in, os.path.join(workdir, 'seq'), channels)
     res.traces += 1
-    if sorted(seq_res) != sorted(names):
+    if '__aborted__' in seq_res:
+        bad.append(({'kind': 'batch_aborted', 'run': 'sequential', 'tool': tool}, 'the sequential batch raised %s and returned no results (directory %r)' % (seq_res['__aborted__'], files)))
+    elif sorted(seq_res) != sorted(names):
         bad.append(({'kind': 'result_keys', 'run': 'sequential'}, 'sequential run reports results for %r, inputs are %r' % (sorted(seq_res), sorted(names))))
     for n in names:
         r = seq_res.get(n)
@@ -230,6 +249,8 @@ def explore_directory(case, res, workdir, tier):
         r1, o1 = env.run_forked(child_alone, tool, os.path.join(dir_in, n), os.path.join(d_out, n), channels, dir_in, d_out)
         res.traces += 1
         alone_res.update(r1)
+        if any(isinstance(v, tuple) and v and v[0] == '__raised__' for v in r1.values()):
+            bad.append(({'kind': 'single_conversion_raises', 'tool': tool}, 'converting %s (%s) alone raised %r instead of returning a failed result' % (n, code_of[n], list(r1.values())[0])))
         for k, v in o1.items():
             if k in alone_out and is_good(code_of[n], tool):
                 collisions.append(k)
@@ -264,6 +285,9 @@ def explore_directory(case, res, workdir, tier):
         res.traces += 1
         nsched += 1
         outcomes.add(h64(repr((sorted(r.items()), sorted(o.items())))))
+        if '__aborted__' in r:
+            bad.append(({'kind': 'batch_aborted', 'run': 'pool', 'tool': tool}, 'schedule %r: the batch raised %s and returned no results (directory %r)' % (assignment, r['__aborted__'], files)))
+            continue
         if sorted(r) != sorted(names):
             bad.append(({'kind': 'result_keys', 'run': 'pool'}, 'schedule %r reports results for %r, inputs are %r' % (assignment, sorted(r), sorted(names))))
         compare('schedule', r, o, {})
@@ -297,7 +321,7 @@ def gen_cases(tier):
         good = NATIVE[tool]
         g0 = good[0]
         g1 = good[1]
-        gb = good[-1]
+        gb = good[2] if len(good) > 2 and good[2] != 'LX' else good[1]
         bads = ['%s:%s' % (g0, d) for d in (damages if tier == 'thorough' else ['label', 'mid', 'trunc'])] + ['EMPTY', 'LAS'] + \
                (['DAT'] if tier == 'thorough' else []) + [c for c in ('V1', 'L', 'B') if c not in good][:2 if tier == 'thorough' else 1]
         for channels in (['GR'], []):
@@ -320,6 +344,19 @@ def gen_cases(tier):
                 for b1, b2 in itertools.combinations(bads, 2):
                     e1, e2 = EXT.get(b1.split(':')[0], '.dlis'), EXT.get(b2.split(':')[0], '.dlis')
                     yield {'tool': tool, 'files': [['a' + e1, b1], ['b' + EXT[g0], g0], ['c' + e2, b2], ['d' + EXT[g1], g1]], 'channels': channels}
+        # truncation sweep of a valid file (every 48th of its length): the file at every position of the processing order
+        for q in range(1, 48, 1 if tier == 'thorough' else 3):
+            b = '%s:cut%d' % (g0, q)
+            yield {'tool': tool, 'files': [['a' + EXT[g0], b], ['b' + EXT[g0], g0]], 'channels': []}
+            if tier == 'thorough':
+                yield {'tool': tool, 'files': [['a' + EXT[g0], g0], ['b' + EXT[g0], b], ['c' + EXT[g1], g1]], 'channels': []}
+        if tool == 'lis':
+            # truncations of a real example file (identified as LIS with the best padding guess, indexed without it)
+            cuts = ['bytes70', 'bytes71'] + ['cut%d' % q for q in (range(1, 48) if tier == 'thorough' else (12, 19, 21, 36))]
+            yield {'tool': tool, 'files': [['a.lis', 'LX'], ['b.lis', 'L']], 'channels': []}
+            for c in cuts:
+                yield {'tool': tool, 'files': [['a.lis', 'LX:' + c], ['b.lis', 'L']], 'channels': []}
+                yield {'tool': tool, 'files': [['a.lis', 'L'], ['b.lis', 'LX:' + c], ['c.lis', 'Lb']], 'channels': []}
         # output name collisions
         yield {'tool': tool, 'files': [['a' + EXT[g0], g0], ['a' + EXT[g0].upper(), gb]], 'channels': []}
         yield {'tool': tool, 'files': [['a' + EXT[g0], g0], ['a.001', gb]], 'channels': []}
